@@ -242,7 +242,7 @@ Section Pass1.
             + intros k Hk. destruct Hc1 as [[-> ->]|[Hn [[-> ->]|(pre' & e & -> & ->)]]].
               * now rewrite app_nil_r.
               * now rewrite proj_eq_sing.
-              * rewrite !proj_app, !proj_eq_sing by assumption. now rewrite app_assoc.
+              * rewrite !proj_app, !(proj_eq_sing k _ Hk). now rewrite app_assoc.
             + intros Hne. destruct Hc1 as [[-> ->]|[Hn [[-> ->]|(pre' & e & -> & ->)]]].
               * assumption.
               * repeat constructor. assumption.
@@ -255,11 +255,12 @@ Section Pass1.
         replace (zlen pre1 + zlen run - (cd + ci)) with (zlen pre1) by lia.
         rewrite slice_assign0 by lia.
         exists (pre1 ++ merge_new_ops td1 ti1 ++ [(EQUAL, c2 ++ t)]), [], post.
-        rewrite <- !app_assoc. cbn [app]. repeat split; auto; try lia.
+        rewrite <- !app_assoc. cbn [app]. repeat split; auto; try lia;
+          try (intros k Hk; unfold sel; now destruct (k DELETE)).
         * rewrite !zlen_app, zlen_sing. change (zlen (@nil seg)) with 0. lia.
         * right. exists (pre1 ++ merge_new_ops td1 ti1), (c2 ++ t). now rewrite <- app_assoc.
         * intros k Hk. rewrite <- (Hproj k Hk).
-          rewrite !proj_app, !proj_eq_cons, (Hpp k Hk), (proj_new_ops k _ _ Hk), (Hsel k Hk) by assumption.
+          rewrite !proj_app, !(proj_eq_cons k _ _ Hk), (Hpp k Hk), (proj_new_ops k _ _ Hk), (Hsel k Hk).
           rewrite Htd, Hti, !sel_app, !sel_same. now rewrite <- !app_assoc.
         * intros H0. specialize (Hnel H0).
           apply NEL_app_inv in Hnel as [Hn1 Hnel]; [|destruct run; discriminate].
@@ -274,9 +275,8 @@ Section Pass1.
           (* the previous entry is an equality: the run is empty and pre ends with an equality *)
           assert (Hr : run = []).
           { destruct run as [|r run] using rev_ind; [reflexivity|]. exfalso.
-            rewrite (app_assoc pre), (app_assoc (pre ++ run)) in E0.
-            rewrite <- (app_assoc pre run [r]) in E0.
-            rewrite (app_assoc pre), get0 in E0 by (rewrite !zlen_app, zlen_sing in *; lia).
+            rewrite <- (app_assoc run [r]) in E0. cbn [app] in E0. rewrite (app_assoc pre run) in E0.
+            rewrite get0 in E0 by (rewrite !zlen_app, ?zlen_sing in *; lia).
             ok_inv. apply Forall_app in Hrun as [_ Hrun]. inversion Hrun; subst. cbn in *.
             destruct o'; [discriminate|discriminate|]. congruence. }
           subst run. cbn [app] in *. change (zlen (@nil seg)) with 0 in *.
@@ -284,15 +284,15 @@ Section Pass1.
           rewrite zlen_app, zlen_sing in *.
           rewrite <- app_assoc in Hs. cbn [app] in Hs.
           rewrite (get0 pre' (EQUAL, e)) in Hs by lia. cbn [bind] in Hs.
-          rewrite (get1 pre' (EQUAL, e)) in Hs by lia. cbn [bind] in Hs.
           rewrite (set0 pre' (EQUAL, e)) in Hs by lia. cbn [bind] in Hs.
           rewrite (del1 pre') in Hs by lia. cbn [bind] in Hs. ok_inv.
           exists (pre' ++ [(EQUAL, e ++ t)]), [], post.
-          rewrite <- !app_assoc. cbn [app]. repeat split; auto; try lia.
+          rewrite <- !app_assoc. cbn [app]. repeat split; auto; try lia;
+            try (intros k Hk; unfold sel; now destruct (k DELETE)).
           -- rewrite !zlen_app, zlen_sing. change (zlen (@nil seg)) with 0. lia.
           -- right. exists pre', (e ++ t). reflexivity.
           -- intros k Hk. rewrite <- (Hproj k Hk). rewrite <- !app_assoc. cbn [app].
-             rewrite !proj_app, !proj_eq_cons by assumption. now rewrite app_assoc.
+             rewrite !proj_app, !(proj_eq_cons k _ _ Hk). now rewrite <- !app_assoc.
           -- intros H0. specialize (Hnel H0). rewrite <- app_assoc in Hnel. cbn [app] in Hnel.
              apply NEL_app_inv in Hnel as [Hn1 Hnel]; [|discriminate].
              apply NEL_app; [assumption|].
@@ -305,7 +305,8 @@ Section Pass1.
                 intros Hc. apply app_eq_nil in Hc as [Hc _]. contradiction.
         * (* move past this equality *)
           ok_inv. exists (pre ++ run ++ [(EQUAL, t)]), [], post.
-          rewrite <- !app_assoc. cbn [app]. repeat split; auto; try lia.
+          rewrite <- !app_assoc. cbn [app]. repeat split; auto; try lia;
+            try (intros k Hk; unfold sel; now destruct (k DELETE)).
           -- rewrite !zlen_app, zlen_sing. change (zlen (@nil seg)) with 0. lia.
           -- right. exists (pre ++ run), t. now rewrite <- app_assoc.
   Qed.
@@ -360,7 +361,7 @@ Section Pass2.
       + apply str_eqb_eq in Et0. subst t0. cbn [bind] in Hs.
         rewrite del0 in Hs by lia. cbn [bind] in Hs. ok_inv.
         split; [lia|]. split.
-        * intros k Hk. rewrite <- (Hproj k Hk). rewrite !proj_app, proj_eq_cons by assumption. reflexivity.
+        * intros k Hk. rewrite <- (Hproj k Hk). rewrite !proj_app, (proj_eq_cons k _ _ Hk). reflexivity.
         * intros H0. specialize (Hne H0). apply Forall_app in Hne as [H1 H2].
           apply Forall_app. split; [assumption|]. now inversion H2.
       + apply str_eqb_neq in Et0.
@@ -370,7 +371,7 @@ Section Pass2.
         rewrite slice_to_app_neg by (auto; lia).
         split; [lia|]. split.
         * intros k Hk. rewrite <- (Hproj k Hk).
-          rewrite !proj_app, !proj_eq_cons, !proj_cons, !proj_eq_cons by assumption.
+          rewrite !proj_app, !proj_cons, !(gk_eq _ Hk).
           destruct (k o1); cbn [app]; rewrite <- ?app_assoc; reflexivity.
         * intros H0. specialize (Hne H0). apply Forall_app in Hne as [H1 H2].
           apply Forall_app. split; [assumption|].
@@ -386,7 +387,7 @@ Section Pass2.
         rewrite slice_from_app by reflexivity.
         split; [lia|]. split.
         * intros k Hk. rewrite <- (Hproj k Hk).
-          rewrite !proj_app, !proj_eq_cons, !proj_cons, !proj_eq_cons by assumption.
+          rewrite !proj_app, !proj_cons, !(gk_eq _ Hk).
           destruct (k o1); cbn [app]; rewrite <- ?app_assoc; reflexivity.
         * intros H0. specialize (Hne H0). apply Forall_app in Hne as [H1 H2].
           apply Forall_app. split; [assumption|].
@@ -423,18 +424,20 @@ Proof.
   unfold merge_once. intros H. inv_bind H.
   assert (H1 : (forall k, good_keep k -> proj k v = proj k (d ++ [(EQUAL, [])])) /\
                (NEL (d ++ [(EQUAL, [])]) -> NEL v)).
-  { revert E. apply (loop_inv (inv1 (d ++ [(EQUAL, [])]))).
+  { revert E. apply (loop_inv (inv1 (d ++ [(EQUAL, [])]))
+                              (fun v => (forall k, good_keep k -> proj k v = proj k (d ++ [(EQUAL, [])])) /\
+                                        (NEL (d ++ [(EQUAL, [])]) -> NEL v))).
     - apply inv1_step.
     - apply inv1_exit.
     - exists [], [], (d ++ [(EQUAL, [])]). cbn [app]. change (zlen (@nil seg)) with 0.
-      repeat split; auto; try lia. left. reflexivity. }
+      repeat split; auto; try lia; try (now left); try (intros k Hk; unfold sel; now destruct (k DELETE)). }
   destruct H1 as [Hp1 Hn1].
   inv_bind H. destruct v0 as [ol tl].
   apply py_get_last_inv in E0 as (body & ->).
-  inv_bind H.
-  assert (H2 : (forall k, good_keep k -> proj k v0 = proj k d) /\ (Forall nonempty d -> Forall nonempty v0)).
+  inv_bind H as w Ew.
+  assert (H2 : (forall k, good_keep k -> proj k w = proj k d) /\ (Forall nonempty d -> Forall nonempty w)).
   { destruct (str_eqb tl []) eqn:Etl.
-    - apply str_eqb_eq in Etl. subst tl. rewrite py_pop_app in E0. ok_inv. split.
+    - apply str_eqb_eq in Etl. subst tl. rewrite py_pop_app in Ew. ok_inv. split.
       + intros k Hk. specialize (Hp1 k Hk). rewrite !proj_app, !proj_sing in Hp1.
         destruct (k ol), (k EQUAL); rewrite ?app_nil_r in Hp1; assumption.
       + intros H0. specialize (Hn1 (NEL_last _ _ H0)). eapply NEL_all; [eassumption|reflexivity].
@@ -445,7 +448,7 @@ Proof.
         repeat constructor. exact Etl. }
   destruct H2 as [Hp2 Hn2].
   revert H.
-  apply (loop_inv (inv2 v0) (fun r : list seg * bool => let '(d', _) := r in
+  apply (loop_inv (inv2 w) (fun r : list seg * bool => let '(d', _) := r in
             (forall k, good_keep k -> proj k d' = proj k d) /\ (Forall nonempty d -> Forall nonempty d'))).
   - apply inv2_step.
   - intros s [dd cc] Hi Hs. destruct (inv2_exit _ _ _ _ Hi Hs) as [Ha Hb]. split.
